@@ -21,10 +21,15 @@ Inductive op :=
 | OConnect (id : N)            (* connect without pausing: admission and registration *)
 | ODisc (id : N) (o : option N)  (* embedder: Clients::disconnect(id, Some(conn id of k) | None) *)
 | OProbe (k : N)               (* is k served? (ping answered and a datagram from it forwarded) *)
-| OFlood (k : N).              (* traffic is made to pile up for k's endpoint: other clients keep the send
+| OFlood (k : N)               (* traffic is made to pile up for k's endpoint: other clients keep the send
                                   queue of its active connection filled while its clients read slowly, so
                                   the connection's actor is busy writing, with a non-empty queue every time
                                   it re-enters its select — until the next disconnect request has been served *)
+| ODisc2 (id : N) (o1 o2 : option N).
+                               (* embedder: Clients::disconnect(id, o1) IMMEDIATELY followed by
+                                  Clients::disconnect(id, o2) — no await in between, so the connections
+                                  cancelled by the first call are still in the registry (their actors have
+                                  not yet unregistered) when the second call is made *)
 
 (* phase: 0 admitted, accept parked before register; 1 registered, actor running;
           2 gone (actor cancelled: biased select leaves the loop, unregisters, stream closed).
@@ -37,6 +42,13 @@ Definition state := list conn.
 
 Definition matches (c : conn) (id : N) (o : option N) : bool :=
   (cid c =? id) && match o with None => true | Some k => num c =? k end.
+
+Definition inrange (s : state) (o : option N) : bool :=
+  match o with Some k => k <? len s | None => true end.
+Definition matches2 (c : conn) (id : N) (o1 o2 : option N) : bool :=
+  matches c id o1 || matches c id o2.
+Definition found (s : state) (id : N) (o : option N) : N :=
+  if existsb (fun c => matches c id o && (phase c =? 1)) s then 1 else 0.
 
 Definition exec (s : state) (o : op) : state * N :=
   match o with
@@ -66,6 +78,18 @@ Definition exec (s : state) (o : op) : state * N :=
                                  then mkC (num c) (cid c) (phase c) (revoked c) true else c) s, 1)
       | None => (s, 0)
       end
+  | ODisc2 id o1 o2 =>
+      if inrange s o1 && inrange s o2 then
+        (* two requests back to back: each cancels every REGISTERED connection it names — whether
+           or not the other request has already cancelled that or another connection of the
+           endpoint (a cancelled connection stays in the registry until its actor unregisters,
+           which cannot have happened yet) — so both look at the same registry; together they
+           stop every registered connection either of them names.  ret = 10 + 2*found1 + found2. *)
+        (map (fun c => if matches2 c id o1 o2
+                       then mkC (num c) (cid c) (if phase c =? 1 then 2 else phase c) true false
+                       else mkC (num c) (cid c) (phase c) (revoked c) false) s,
+         10 + 2 * found s id o1 + found s id o2)
+      else (s, 0)
   end.
 
 Fixpoint go (s : state) (l : list op) : list (state * N) :=
@@ -106,6 +130,10 @@ Definition disc_ok (s : state) (id : N) (o : option N) (still : list N) : bool :
   forallb (fun c => if matches c id o && (phase c =? 1)
                     then negb (existsb (N.eqb (num c)) still) else true) s.
 
+Definition disc_ok2 (s : state) (id : N) (o1 o2 : option N) (still : list N) : bool :=
+  forallb (fun c => if matches2 c id o1 o2 && (phase c =? 1)
+                    then negb (existsb (N.eqb (num c)) still) else true) s.
+
 Fixpoint monitor_from (s : state) (l : list op) (rs : list obs) : bool :=
   match l, rs with
   | [], [] => true
@@ -113,6 +141,7 @@ Fixpoint monitor_from (s : state) (l : list op) (rs : list obs) : bool :=
       (match o with
        | OProbe k => probe_ok s k (fst r)
        | ODisc id oc => disc_ok s id oc (snd r)
+       | ODisc2 id o1 o2 => disc_ok2 s id o1 o2 (snd r)
        | _ => true
        end) &&
       monitor_from (fst (exec s o)) l' rs'
@@ -135,6 +164,9 @@ Fixpoint known_from (s : state) (l : list op) : bool :=
        | ODisc id oc =>
            (match oc with Some k => k <? len s | None => true end) &&
            existsb (fun c => matches c id oc && (phase c =? 0)) s
+       | ODisc2 id o1 o2 =>
+           (inrange s o1 && inrange s o2) &&
+           existsb (fun c => matches2 c id o1 o2 && (phase c =? 0)) s
        | _ => false
        end) || known_from (fst (exec s o)) l'
   end.
@@ -143,13 +175,15 @@ Definition known (i : input) : N := if known_from [] i then 1 else 0.
 
 (* Branch tag: 0 no disconnect request; 1 requests only for registered / absent connections;
    2 a request while some accept is parked (any endpoint); 3 the known class;
-   4 a request naming a registered connection that is busy (traffic piled up for it). *)
+   4 a request naming a registered connection that is busy (traffic piled up for it);
+   5 (outside 3) two requests issued back to back. *)
 Fixpoint busy_disc (s : state) (l : list op) : bool :=
   match l with
   | [] => false
   | o :: l' =>
       (match o with
        | ODisc id oc => existsb (fun c => matches c id oc && (phase c =? 1) && busy c) s
+       | ODisc2 id o1 o2 => existsb (fun c => matches2 c id o1 o2 && (phase c =? 1) && busy c) s
        | _ => false
        end) || busy_disc (fst (exec s o)) l'
   end.
@@ -157,11 +191,12 @@ Fixpoint parked_disc (s : state) (l : list op) : bool :=
   match l with
   | [] => false
   | o :: l' =>
-      (match o with ODisc _ _ => existsb (fun c => phase c =? 0) s | _ => false end)
+      (match o with ODisc _ _ | ODisc2 _ _ _ => existsb (fun c => phase c =? 0) s | _ => false end)
       || parked_disc (fst (exec s o)) l'
   end.
 Definition tag (i : input) : N :=
   if known_from [] i then 3
+  else if existsb (fun o => match o with ODisc2 _ _ _ => true | _ => false end) i then 5
   else if busy_disc [] i then 4
   else if parked_disc [] i then 2
   else if existsb (fun o => match o with ODisc _ _ => true | _ => false end) i then 1 else 0.
